@@ -3,10 +3,18 @@
    (Fields.Value) and /repo/pkg/cursor/fiterator.go. Definitions only.
 
    The Go builders keep the closure under construction in a field (web.wef / teb.tef) that every
-   build* method overwrites; the model threads that field explicitly (`wef`), because two LIKE cases
-   declare a fresh `err` with `_, err := path.Match(..)`, so a malformed pattern returns nil (no
-   error) and leaves the field as it was: nil (a Go nil func: calling it panics) or the closure of
-   the condition built before. *)
+   build* method overwrites; the model threads that field explicitly (`wef`). The LIKE cases probe the
+   pattern with path.Match(value, "abc"); what happens with the probe's error is the variant flag
+   [sh] of the builders:
+     sh = false  `_, err = path.Match(..)`: the error is the function's result, a malformed pattern is
+                 refused (the code since the fix of whereeval.go buildMsgCond/buildFldCond and
+                 tagseval.go buildTagCond);
+     sh = true   `_, err := path.Match(..)`: a fresh err, declared in the case block, shadows the result;
+                 a malformed pattern returns nil (no error) and leaves the field as it was: nil (a Go
+                 nil func: calling it panics) or the closure of the condition built before (the code
+                 before the fix; kept so that the theorems can say what the repair bought).
+   [code_like_shadow] is the variant of the code; build_where / build_tags (what K runs and the
+   theorems are about) are the builders at that variant. *)
 From LR Require Import lib.Base model.LqlAst model.LqlLex.
 From Coq Require Import Strings.String.
 Local Open Scope string_scope.
@@ -67,6 +75,10 @@ Definition tag_value (t : tagset) (name : bytes) : bytes := lookup_first t name.
 (* tagMap.subsetOf: every pair of a is in b with the same value *)
 Definition tags_subset (a b : tagset) : bool :=
   forallb (fun '(k, v) => existsb (fun '(k2, v2) => bytes_eqb k k2 && bytes_eqb v v2) b) a.
+
+(* whereeval.go buildMsgCond, buildFldCond; tagseval.go buildTagCond: `_, err = path.Match(cn.Value, "abc")`
+   (was `_, err :=`, a shadowed err, before the fix) *)
+Definition code_like_shadow : bool := false.
 
 Section Eval.
   (* environment (DESIGN.md section 7) *)
@@ -149,7 +161,7 @@ Section Eval.
     end.
 
   (* buildMsgCond (sym = false, get = message) and buildFldCond (sym = true, get = Fields.Value) *)
-  Definition b_str (w : wef) (c : cond) (sym : bool) (get : event -> outcome bytes) : option wef :=
+  Definition b_str (sh : bool) (w : wef) (c : cond) (sym : bool) (get : event -> outcome bytes) : option wef :=
     let opU := to_upper (c_op c) in
     match str_fun (c_ident c) with
     | None => None
@@ -158,59 +170,62 @@ Section Eval.
         | None => None
         | Some test =>
             if bytes_eqb opU (B "LIKE") && like_bad (c_val c)
-            then Some w      (* the shadowed err: no error, closure field untouched *)
+            then (if sh then Some w      (* the shadowed err: no error, closure field untouched *)
+                  else None)             (* the probe's error is returned *)
             else Some (Some (fun ev => match get ev with Ok s => Ok (test (lsf s)) | Panic => Panic | Err => Err | OutOfFuel => OutOfFuel end))
         end
     end.
 
   (* buildCond *)
-  Definition b_cond (w : wef) (c : cond) : option wef :=
+  Definition b_cond (sh : bool) (w : wef) (c : cond) : option wef :=
     let fld := first_param_name (c_ident c) in
     let op := to_lower fld in
     if bytes_eqb op (B "ts") then b_ts w c
-    else if bytes_eqb op (B "msg") then b_str w c false (fun ev => Ok (ev_msg ev))
+    else if bytes_eqb op (B "msg") then b_str sh w c false (fun ev => Ok (ev_msg ev))
     else if negb (prefixb (B "fields:") op) || Nat.ltb (List.length op) 8 then None
-    else b_str w c true (fun ev => fields_value (ev_fields ev) (skipn 7 fld)).
+    else b_str sh w c true (fun ev => fields_value (ev_fields ev) (skipn 7 fld)).
 
   (* buildOrConds / buildXConds / buildXCond; None = error *)
-  Fixpoint b_expr (w : wef) (e : expr) : option wef :=
+  Fixpoint b_expr (sh : bool) (w : wef) (e : expr) : option wef :=
     match e with
-    | Or1 o => b_orc w o
+    | Or1 o => b_orc sh w o
     | OrS o rest =>
-        match b_orc w o with
+        match b_orc sh w o with
         | None => None
-        | Some w0 => match b_expr w0 rest with None => None | Some w1 => Some (f_or w0 w1) end
+        | Some w0 => match b_expr sh w0 rest with None => None | Some w1 => Some (f_or w0 w1) end
         end
     end
-  with b_orc (w : wef) (o : orc) : option wef :=
+  with b_orc (sh : bool) (w : wef) (o : orc) : option wef :=
     match o with
-    | And1 x => b_xc w x
+    | And1 x => b_xc sh w x
     | AndS x rest =>
-        match b_xc w x with
+        match b_xc sh w x with
         | None => None
-        | Some w0 => match b_orc w0 rest with None => None | Some w1 => Some (f_and w0 w1) end
+        | Some w0 => match b_orc sh w0 rest with None => None | Some w1 => Some (f_and w0 w1) end
         end
     end
-  with b_xc (w : wef) (x : xc) : option wef :=
+  with b_xc (sh : bool) (w : wef) (x : xc) : option wef :=
     match x with
     | X neg b =>
-        match b_body w b with
+        match b_body sh w b with
         | None => None
         | Some w1 => if neg then Some (f_not w1) else Some w1
         end
     end
-  with b_body (w : wef) (b : body) : option wef :=
+  with b_body (sh : bool) (w : wef) (b : body) : option wef :=
     match b with
-    | BC c => b_cond w c
-    | BP e => b_expr w e
+    | BC c => b_cond sh w c
+    | BP e => b_expr sh w e
     end.
 
   (* BuildWhereExpFuncByExpression: a fresh builder (field nil); nil expression = always true *)
-  Definition build_where (e : option expr) : option wef :=
+  Definition build_where_v (sh : bool) (e : option expr) : option wef :=
     match e with
     | None => Some (Some (fun _ => Ok true))
-    | Some e => b_expr None e
+    | Some e => b_expr sh None e
     end.
+  (* the code *)
+  Definition build_where : option expr -> option wef := build_where_v code_like_shadow.
 
   (* ================= the documented meaning (reference) ================= *)
   (* events as the property sees them: timestamp, message, list of (name, value) pairs *)
@@ -249,9 +264,18 @@ Section Eval.
     else if bytes_eqb op (B "msg") then ref_str false c (re_msg ev)
     else ref_str true c (lookup_first (re_fields ev) (skipn 7 fld)).
 
-  (* is the condition one the server can evaluate? (what buildCond accepts, with a well-formed LIKE pattern) *)
+  (* is the condition one the server can evaluate? (what buildCond accepts) *)
   Definition funs_ok (i : ident) : bool := match str_fun i with Some _ => true | None => false end.
-  Definition evaluable_cond_nolike (c : cond) : bool :=
+  (* a LIKE pattern must be one path.Match accepts *)
+  Definition like_ok (c : cond) : bool :=
+    negb (bytes_eqb (to_upper (c_op c)) (B "LIKE") && like_bad (c_val c)).
+  (* msg (sym = false) or fields:<name> (sym = true): a valid UPPER/LOWER nest, an operator the operand supports,
+     a well-formed LIKE pattern *)
+  Definition str_ok (sym : bool) (c : cond) : bool :=
+    funs_ok (c_ident c) &&
+    match str_test sym (to_upper (c_op c)) (c_op c) (c_val c) with Some _ => true | None => false end &&
+    like_ok c.
+  Definition evaluable_cond (c : cond) : bool :=
     let fld := first_param_name (c_ident c) in
     let op := to_lower fld in
     if bytes_eqb op (B "ts") then
@@ -263,13 +287,9 @@ Section Eval.
           end
       | _ => false
       end
-    else if bytes_eqb op (B "msg") then
-      funs_ok (c_ident c) && match str_test false (to_upper (c_op c)) (c_op c) (c_val c) with Some _ => true | None => false end
+    else if bytes_eqb op (B "msg") then str_ok false c
     else if negb (prefixb (B "fields:") op) || Nat.ltb (List.length op) 8 then false
-    else funs_ok (c_ident c) && match str_test true (to_upper (c_op c)) (c_op c) (c_val c) with Some _ => true | None => false end.
-  Definition like_ok (c : cond) : bool :=
-    negb (bytes_eqb (to_upper (c_op c)) (B "LIKE") && like_bad (c_val c)).
-  Definition evaluable_cond (c : cond) : bool := evaluable_cond_nolike c && like_ok c.
+    else str_ok true c.
 
   (* ---- the participle tree evaluated directly (OR of ANDs of optionally negated atoms) ---- *)
   Fixpoint ev_expr (e : expr) (ev : revent) : bool :=
@@ -301,8 +321,8 @@ Section Eval.
   Definition t_not (a : tef) : tef :=
     Some (fun t => match tcall a t with Ok b => Ok (negb b) | o => o end).
 
-  (* buildTagCond: any operand name is a tag name; all ten operators; same shadowed err for LIKE *)
-  Definition bt_cond (w : tef) (c : cond) : option tef :=
+  (* buildTagCond: any operand name is a tag name; all ten operators; the same probe for LIKE *)
+  Definition bt_cond (sh : bool) (w : tef) (c : cond) : option tef :=
     match str_fun (c_ident c) with
     | None => None
     | Some tvf =>
@@ -310,50 +330,52 @@ Section Eval.
         match str_test true opU (c_op c) (c_val c) with
         | None => None
         | Some test =>
-            if bytes_eqb opU (B "LIKE") && like_bad (c_val c) then Some w
+            if bytes_eqb opU (B "LIKE") && like_bad (c_val c) then (if sh then Some w else None)
             else Some (Some (fun t => Ok (test (tvf (tag_value t (first_param_name (c_ident c)))))))
         end
     end.
 
-  Fixpoint bt_expr (w : tef) (e : expr) : option tef :=
+  Fixpoint bt_expr (sh : bool) (w : tef) (e : expr) : option tef :=
     match e with
-    | Or1 o => bt_orc w o
+    | Or1 o => bt_orc sh w o
     | OrS o rest =>
-        match bt_orc w o with
+        match bt_orc sh w o with
         | None => None
-        | Some w0 => match bt_expr w0 rest with None => None | Some w1 => Some (t_or w0 w1) end
+        | Some w0 => match bt_expr sh w0 rest with None => None | Some w1 => Some (t_or w0 w1) end
         end
     end
-  with bt_orc (w : tef) (o : orc) : option tef :=
+  with bt_orc (sh : bool) (w : tef) (o : orc) : option tef :=
     match o with
-    | And1 x => bt_xc w x
+    | And1 x => bt_xc sh w x
     | AndS x rest =>
-        match bt_xc w x with
+        match bt_xc sh w x with
         | None => None
-        | Some w0 => match bt_orc w0 rest with None => None | Some w1 => Some (t_and w0 w1) end
+        | Some w0 => match bt_orc sh w0 rest with None => None | Some w1 => Some (t_and w0 w1) end
         end
     end
-  with bt_xc (w : tef) (x : xc) : option tef :=
+  with bt_xc (sh : bool) (w : tef) (x : xc) : option tef :=
     match x with
     | X neg b =>
-        match bt_body w b with
+        match bt_body sh w b with
         | None => None
         | Some w1 => if neg then Some (t_not w1) else Some w1
         end
     end
-  with bt_body (w : tef) (b : body) : option tef :=
+  with bt_body (sh : bool) (w : tef) (b : body) : option tef :=
     match b with
-    | BC c => bt_cond w c
-    | BP e => bt_expr w e
+    | BC c => bt_cond sh w c
+    | BP e => bt_expr sh w e
     end.
 
   (* BuildTagsExpFuncBySource *)
-  Definition build_tags (s : option source) : option tef :=
+  Definition build_tags_v (sh : bool) (s : option source) : option tef :=
     match s with
     | None => Some (Some (fun _ => Ok true))
     | Some (SrcTags tg) => Some (Some (fun t => Ok (tags_subset tg t)))
-    | Some (SrcExpr e) => bt_expr None e
+    | Some (SrcExpr e) => bt_expr sh None e
     end.
+  (* the code *)
+  Definition build_tags : option source -> option tef := build_tags_v code_like_shadow.
 End Eval.
 
 (* ================= fiterator (cursor/fiterator.go) over a list-backed iterator ================= *)
